@@ -394,3 +394,59 @@ func (v *VerifState) PickOwner(method string) (string, error) {
 	}
 	return "untracked", nil
 }
+
+// VerifStreamLifecycle drives streamGRPC.begin / wg.Done / close with the step
+// string (b = a stream call begins, d = a call in flight returns, c = close is
+// started on its own goroutine) and reports after each step: calls accepted so
+// far, calls refused so far, and whether close has returned. A close that is
+// still waiting is given settle time before it is reported as not returned.
+func VerifStreamLifecycle(steps string, settle time.Duration) []string {
+	s := &streamGRPC{}
+	accepted, refused, inflight := 0, 0, 0
+	var closed chan struct{}
+	returned := false
+	var out []string
+	for _, c := range steps {
+		switch c {
+		case 'b':
+			if err := s.begin(); err != nil {
+				refused++
+			} else {
+				accepted++
+				inflight++
+			}
+		case 'd':
+			if inflight > 0 {
+				inflight--
+				s.wg.Done()
+			}
+		case 'c':
+			if closed == nil {
+				closed = make(chan struct{})
+				go func() { s.close(); close(closed) }()
+				// let close take the mutex and set the flag before the next step
+				for i := 0; i < 1000; i++ {
+					s.mu.Lock()
+					done := s.closed
+					s.mu.Unlock()
+					if done {
+						break
+					}
+					time.Sleep(10 * time.Microsecond)
+				}
+			}
+		}
+		if closed != nil && !returned {
+			select {
+			case <-closed:
+				returned = true
+			case <-time.After(settle):
+			}
+		}
+		out = append(out, fmt.Sprintf("%d,%d,%v", accepted, refused, returned))
+	}
+	for ; inflight > 0; inflight-- {
+		s.wg.Done()
+	}
+	return out
+}
